@@ -62,7 +62,7 @@ class MultiVector:
         if grades is None and name and keys is not None:
             grades = tuple(sorted({format(k, 'b').count('1') for k in keys}))
         values = values if values is not None else list()
-        keys = keys if keys is not None else tuple()
+        keys = tuple(keys) if keys is not None else tuple()
 
         if grades is not None:
             if not all(0 <= grade <= algebra.d for grade in grades):
